@@ -190,6 +190,14 @@ def gen_case(rnd, idx, forced_ctx=None, forced_root=None, n=None):
         if rk.startswith("event-") and (idx + r) % 3 == 0:
             # the same event is emitted again elsewhere with another payload type: the first site's type is still part of the surface
             cmds.append("pub fn again_%d_%d(app: AppHandle) {\n    app.emit(\"ev-root_%d_%d\", 7u8).unwrap();\n}\n\n" % (idx, r, idx, r))
+        elif rk.startswith("event-") and (idx + r) % 3 == 1:
+            # ... and the other way round: an EARLIER site of the same event has a primitive payload, this root's site comes later
+            cmds.insert(0, "pub fn earlier_%d_%d(app: AppHandle) {\n    app.emit(\"ev-root_%d_%d\", 0u8).unwrap();\n}\n\n" % (idx, r, idx, r))
+    ev_roots = [r for r, (_t, rk, _l, _ty) in enumerate(roots) if rk.startswith("event-")]
+    if len(ev_roots) >= 2 and idx % 4 == 2:
+        # two roots emit ONE event name with their different payload types: both types are part of the surface
+        a_, b_ = ev_roots[0], ev_roots[1]
+        cmds = [c.replace("\"ev-root_%d_%d\"" % (idx, b_), "\"ev-root_%d_%d\"" % (idx, a_)) for c in cmds]
     if err_only:
         body.setdefault("lib.rs", []).append(rg.struct_src(err_only, [("msg", "String")]))
         if not any(rk == "return-result-ok" for (_, rk, _, _) in roots):
